@@ -88,8 +88,10 @@ fn parse_hex_key(s: &str) -> Result<[u8; KEY_SIZE], KeyParseError> {
     if s.len() == KEY_SIZE * 2 {
         let mut r = [0u8; KEY_SIZE];
         for i in 0..KEY_SIZE {
-            r[i] = u8::from_str_radix(&s[i * 2..i * 2 + 2], 16)
-                .map_err(KeyParseError::InvalidKeyChar)?;
+            // `get` is `None` when the range is not on a char boundary, i.e. the key
+            // contains a multi-byte (non-hex) character; "?" reports it as an invalid digit.
+            let digits = s.get(i * 2..i * 2 + 2).unwrap_or("?");
+            r[i] = u8::from_str_radix(digits, 16).map_err(KeyParseError::InvalidKeyChar)?;
         }
         Ok(r)
     } else {
